@@ -342,14 +342,17 @@ class Evaluator:
             return ("Q", m * Decimal(f.numerator) / Decimal(f.denominator), dim)
         return ("Q", m * f, dim)
 
-    @staticmethod
-    def num_close(x, y, tol):
+    strict = False      # exact-arithmetic streams: a float where int / Fraction operands went in is itself a failure
+
+    def num_close(self, x, y, tol):
         if is_nan(x) or is_nan(y):
             return is_nan(x) and is_nan(y)
         if isinstance(x, complex) or isinstance(y, complex):
             raise Skip("complex")
         if exact(x) and exact(y):
             return x == y
+        if self.strict:
+            return False
         try:
             fx, fy = F(x), F(y)
         except (OverflowError, ValueError):
@@ -462,7 +465,8 @@ def run(ck):
                "ppm ... — the list is in the evidence); operands snapshotted around every application; ndarray (object dtype, exact) targets for the "
                "in-place twins (incl. dimensionless targets not in root units with bare operands); ==, <, <=, >, >=; every bundled context "
                "ACTIVE (dimension mismatch across the dimensions it relates must still raise; same-dimension results unchanged); "
-               "float / Decimal / int magnitudes with tolerance (labelled tests); malformed "
+               "float / Decimal / int magnitudes with tolerance (labelled tests); Python-int magnitudes in the Fraction registry with EXACT "
+               "comparison where a float result is itself a failure; int magnitudes in the Decimal registry; malformed "
                "stream: mixed dimensions, bare numbers on dimensioned quantities, zero divisors, dimensioned exponents. "
                "non-trivial = distinct (tree shape with operators, forms and leaf units) whose re-expression changes at least one unit")
     ck.assumptions += [
@@ -746,8 +750,16 @@ def run(ck):
                 kinds = ("Q" if ls[0][0] == "ok" and is_q(ls[0][1]) else "N") + ("Q" if rs[0][0] == "ok" and is_q(rs[0][1]) else "N")
                 involved = [units_in(ls[0]), units_in(ls[k]), units_in(rs[0]), units_in(rs[k])]
             negs = sorted({n for d in involved for n in d if n in neg_units or any(n.endswith(x) and n != x for x in neg_units)})
+            def inexact_result(o):
+                if o[0] != "ok":
+                    return False
+                m = o[1]._magnitude if is_q(o[1]) else o[1]
+                return not exact(m) and not is_nan(m)
             if op == "abs" and negs:
                 key = "cov:abs:negative-scale"
+            elif tag == ":int-exact" and (inexact_result(outs[0]) or inexact_result(outs[k])):
+                # int / Fraction operands went in, a float came out (in one way of writing the operands at least)
+                key = f"exact-arithmetic:{op}:{form}:{kinds}"
             else:
                 key = f"cov{tag}:{op}:{form}:{kinds}"
             desc = (f"{op}[{form}] is not covariant: {describe(outs[0])} vs {describe(outs[k])} after re-expressing the operands "
@@ -1250,15 +1262,30 @@ def run(ck):
     lap('probes')
     # ---------------- stream 6: float and Decimal registries, int magnitudes (tolerance; labelled tests)
     for nit, tol, ntr, tag in ((float, F(1, 10 ** 9), N(400, 2500), ":float"), (Decimal, F(1, 10 ** 20), N(200, 1200), ":Decimal"),
-                               (F, F(1, 10 ** 9), N(300, 1500), ":int")):
-        Wn = World(nit, as_int=(tag == ":int"))
+                               (F, F(1, 10 ** 9), N(300, 1500), ":int"), (Decimal, F(1, 10 ** 20), N(250, 1200), ":Decimal-int"),
+                               (F, F(0), N(900, 6000), ":int-exact")):
+        # ":int-exact": Python-int magnitudes in the Fraction registry, EXACT comparison, and a float result is a failure
+        # ("in exact (rational) arithmetic the agreement is exact"); ":Decimal-int": int magnitudes in the Decimal registry
+        Wn = World(nit, as_int=("int" in tag))
         Wn.setup_universe(W)
         Wn.exact_ureg = W.ureg
         Wn.fac = W.fac
         for i in range(ntr):
             t = gen(rng.randint(1, 3), False)
-            if any(nd[0] == "bin" and nd[1] in ("floordiv", "mod", "divmodq", "divmodr") for nd in walk(t)):
+            if tag != ":int-exact" and any(nd[0] == "bin" and nd[1] in ("floordiv", "mod", "divmodq", "divmodr") for nd in walk(t)):
                 continue
+            if tag == ":int-exact":
+                # stay where Python itself keeps int / Fraction exact: no NaN, ** only with a bare non-negative int
+                # (int ** negative int and Fraction ** Quantity are floats in Python, not in pint)
+                if any(nd[0] == "leaf" and is_nan(nd[1][1]) for nd in walk(t)):
+                    continue
+                if any(nd[0] == "bin" and nd[1] == "pow" and not (nd[3][0] != "leaf" or nd[3][1][0] == "Q") for nd in walk(t)):
+                    continue
+                if any(nd[0] == "bin" and nd[1] == "pow" and not (nd[4][0] == "leaf" and nd[4][1][0] == "N" and exact(nd[4][1][1])
+                                                                   and F(nd[4][1][1]).denominator == 1 and nd[4][1][1] >= 0) for nd in walk(t)):
+                    continue
+            if tag == ":Decimal-int" and any(nd[0] == "bin" and nd[1] == "div" and (nd[2] == "inpl" or (nd[3][0] == "leaf" and nd[3][1][0] == "N")) for nd in walk(t)):
+                continue          # F82 (number / int quantity and int quantity /= ... are floats) is reported by the :int-exact stream
             if nit is Decimal and any(nd[0] == "leaf" and nd[1][0] == "N" and (is_nan(nd[1][1]) or isinstance(nd[1][1], F)) for nd in walk(t)):
                 continue
             if nit is Decimal and any(nd[0] == "bin" and nd[1] == "pow" for nd in walk(t)):
@@ -1270,7 +1297,19 @@ def run(ck):
             va = dict(enumerate(leaves))
             vc = dict(enumerate(reexpress(s) for s in leaves))
             ev = Evaluator(Wn, None)
+            ev.strict = tag == ":int-exact"
             ev.report = make_report(Wn, tag, t, [va, vc])
+            if tag == ":int-exact":
+                try:
+                    ev.run(t, [va, vc], F(0))
+                except (Skip, RecursionError):
+                    ck.count(f"tree{tag}:skipped")
+                    continue
+                for key, desc in ev.frames:
+                    fail(key + tag, desc, {"kind": "tree", "registry": tag, "tree": jsonable_tree(t)})
+                ck.case(key=("tree" + tag, tree_key(t)))
+                ck.count("tree" + tag)
+                continue
             # cancellation guard: compare only when the exact evaluation is not close to zero relative to its leaves
             try:
                 exact_out = Evaluator(W, lambda *a: None).run(t, [va], F(0))[0]
